@@ -24,6 +24,9 @@ use wgsl_to_wgpu::verif_hooks::{self, process::ChildIo, process::SpawnSpec, Back
 
 #[derive(Debug, Clone, Serialize, Deserialize, PartialEq, Eq)]
 pub struct ThreadPlan {
+    /// every n-th heap allocation inside a library call is a scheduling point (0 = none)
+    #[serde(default)]
+    pub alloc_point_every: u64,
     pub entropy: u64,
     /// indices into the pool
     pub jobs: Vec<usize>,
@@ -107,6 +110,10 @@ pub struct WorkerOutput {
     pub realtime_reads: u64,
     pub formatter_spawns: u64,
     pub unreaped_children: u64,
+    #[serde(default)]
+    pub alloc_points: u64,
+    #[serde(default)]
+    pub virtual_sleeps: u64,
     pub log: Vec<String>,
 }
 
@@ -241,6 +248,13 @@ fn run_process(input: &WorkerInput) -> WorkerOutput {
                     let sched = sched.clone();
                     seams::set_sleep_hook(Some(Box::new(move |_ns| sched.point_no_unwind(tid, "sleep"))));
                 }
+                {
+                    let sched = sched.clone();
+                    seams::set_alloc_hook(
+                        tplan.alloc_point_every,
+                        Some(Box::new(move || sched.point_no_unwind(tid, "alloc"))),
+                    );
+                }
                 let backend = Arc::new(C18Backend {
                     sched: sched.clone(),
                     tid,
@@ -254,9 +268,11 @@ fn run_process(input: &WorkerInput) -> WorkerOutput {
                         sched.point(tid, "job:start");
                         let job = &pool[pool_idx];
                         sched.set_in_call(tid, true);
+                        seams::set_alloc_points_active(true);
                         let r = std::panic::catch_unwind(std::panic::AssertUnwindSafe(|| {
                             corpus::run_job(&sources[pool_idx], job.include_path.as_deref(), job.options)
                         }));
+                        seams::set_alloc_points_active(false);
                         sched.set_in_call(tid, false);
                         let result = match r {
                             Ok(outcome) => {
@@ -293,6 +309,7 @@ fn run_process(input: &WorkerInput) -> WorkerOutput {
                 }));
                 verif_hooks::install(None);
                 seams::set_sleep_hook(None);
+                seams::set_alloc_hook(0, None);
                 sched.thread_done(tid);
                 let children = backend.children.lock().unwrap();
                 spawns.fetch_add(children.len() as u64, Ordering::Relaxed);
@@ -382,6 +399,8 @@ fn run_process(input: &WorkerInput) -> WorkerOutput {
         realtime_reads: seams::REALTIME_READS.load(Ordering::Relaxed),
         formatter_spawns: spawns.load(Ordering::Relaxed),
         unreaped_children: unreaped.load(Ordering::Relaxed),
+        alloc_points: seams::ALLOC_POINTS.load(Ordering::Relaxed),
+        virtual_sleeps: seams::VIRTUAL_SLEEPS.load(Ordering::Relaxed),
         log: report.log,
     }
 }
@@ -494,6 +513,7 @@ fn pristine_process(job_count: usize) -> ProcessPlan {
         clock_jump_after: u64::MAX,
         cpus: 0,
         threads: vec![ThreadPlan {
+            alloc_point_every: 0,
             entropy: 0,
             jobs: (0..job_count).collect(),
         }],
@@ -624,8 +644,11 @@ pub fn gen_plan(rng: &mut Rng) -> RunPlan {
     let mut processes = Vec::new();
     for _ in 0..n_proc {
         let n_threads = rng.usize(1, 6);
+        // scheduling points at heap allocations: off, sparse, dense (per process)
+        let alloc_every = *rng.pick(&[0u64, 0, 0, 997, 211, 37]);
         let threads: Vec<ThreadPlan> = (0..n_threads)
             .map(|_| ThreadPlan {
+                alloc_point_every: alloc_every,
                 entropy: rng.next_u64() | 1,
                 jobs: (0..rng.usize(1, 6)).map(|_| rng.usize(0, pool.len() - 1)).collect(),
             })
@@ -726,6 +749,8 @@ pub struct RunStats {
     pub realtime_reads: u64,
     pub formatter_spawns: u64,
     pub unreaped_children: u64,
+    pub alloc_points: u64,
+    pub virtual_sleeps: u64,
     pub same_job_on_two_threads: u64,
     pub same_job_twice_on_one_thread: u64,
     pub same_job_in_two_processes: u64,
@@ -812,6 +837,8 @@ fn execute(scratch: &Scratch, golden: &Golden, plan: &RunPlan, record: bool) -> 
         stats.realtime_reads += out.realtime_reads;
         stats.formatter_spawns += out.formatter_spawns;
         stats.unreaped_children += out.unreaped_children;
+        stats.alloc_points += out.alloc_points;
+        stats.virtual_sleeps += out.virtual_sleeps;
         if process.env.len() != canonical_env().len() || process.env != canonical_env() {
             stats.env_perturbed += 1;
         }
@@ -1050,6 +1077,11 @@ fn minimise(scratch: &Scratch, golden: &Golden, plan: &RunPlan, class: &str) -> 
         let mut c = best.clone();
         c.processes[pi].cpus = 0;
         attempt!(c);
+        let mut c = best.clone();
+        for t in &mut c.processes[pi].threads {
+            t.alloc_point_every = 0;
+        }
+        attempt!(c);
         for ti in 0..best.processes[pi].threads.len() {
             let mut c = best.clone();
             c.processes[pi].threads[ti].entropy = 1;
@@ -1110,6 +1142,8 @@ fn add_stats(a: &mut RunStats, b: &RunStats) {
     a.realtime_reads += b.realtime_reads;
     a.formatter_spawns += b.formatter_spawns;
     a.unreaped_children += b.unreaped_children;
+    a.alloc_points += b.alloc_points;
+    a.virtual_sleeps += b.virtual_sleeps;
     a.same_job_on_two_threads += b.same_job_on_two_threads;
     a.same_job_twice_on_one_thread += b.same_job_twice_on_one_thread;
     a.same_job_in_two_processes += b.same_job_in_two_processes;
@@ -1358,6 +1392,7 @@ pub fn main(tier: Tier) -> i32 {
         ("processes_with_clock_skew", s.clock_skewed),
         ("entropy_requests_served_by_simulator", s.entropy_requests),
         ("formatter_spawns_through_seam", s.formatter_spawns),
+        ("scheduling_points_at_heap_allocations", s.alloc_points),
     ];
     let unreached: Vec<&str> = probes.iter().filter(|(_, n)| *n == 0).map(|(k, _)| *k).collect();
     for u in &unreached {
